@@ -231,12 +231,21 @@ impl Property for C13Prop {
             docs.push(DocSrc { name: "sib".into(), xml: sibling_doc(nsib), via_rfsm: false, model: None });
             notes.insert("sibling".into(), nsib.to_string());
         }
+        // jitter clock in half of the runs: delayed self-sends become due while the session, its sibling and its
+        // own immediate sends are busy with the shared I/O processor
+        let jitter = rng.chance(1, 2);
+        if jitter {
+            script.insert(0, Step::Jitter { on: true });
+        }
         // the sibling is started by the driver while the producers are already running
         script.push(Step::Producers { ids: (0..np).collect() });
         if nsib > 0 {
             script.push(Step::Start { doc: 1 });
         }
         script.push(Step::Quiesce);
+        if jitter {
+            script.push(Step::Jitter { on: false });
+        }
         script.push(Step::DrainTimers { max: 16 });
         script.push(Step::Ping);
         script.push(Step::Quiesce);
@@ -569,6 +578,40 @@ impl Property for C13Prop {
         }
         if v.sched.context_switches > 2 * (v.sc.producers.len() + 2) {
             probes.hit("preemption_happened");
+        }
+        // --- the timer thread is a sender too: every delayed send of the session whose callback ran while the
+        // session was alive must have put its event on the queue (a callback that gives up is a lost event)
+        {
+            let session_task = v.rec.session_task.get(&sid).copied();
+            let mut own_items: BTreeSet<u64> = BTreeSet::new();
+            let mut firing: BTreeMap<usize, (u64, u64, bool)> = BTreeMap::new(); // task -> (item, fire seq, sent)
+            for r in v.log {
+                match &r.kind {
+                    RecKind::TimerSched { item, .. } if Some(r.task) == session_task => {
+                        own_items.insert(*item);
+                    }
+                    RecKind::TimerFire { item } if own_items.contains(item) => {
+                        firing.insert(r.task, (*item, r.seq, false));
+                    }
+                    RecKind::Send { chan: c, ok: true, .. } if *c == chan => {
+                        if let Some(f) = firing.get_mut(&r.task) {
+                            f.2 = true;
+                        }
+                    }
+                    RecKind::TimerFireDone { item } => {
+                        if let Some((it, fseq, sent)) = firing.remove(&r.task) {
+                            if it == *item {
+                                verdict.evaluations += 1;
+                                let ended_before = end_seq.map(|e| e < fseq).unwrap_or(false);
+                                if !sent && !ended_before {
+                                    vio.push(viol("C13", "C13.lost", format!("the timer callback of delayed send item {} ran (seq {}) but put no event on the session's queue", it, fseq), "timer-callback-without-delivery".into()));
+                                }
+                            }
+                        }
+                    }
+                    _ => {}
+                }
+            }
         }
         verdict.nontrivial = interleaved || busy_send;
         verdict.violations = vio;
